@@ -21,6 +21,8 @@ type TD struct {
 	Elem   *TD    `json:"elem,omitempty"`
 	N      int    `json:"n,omitempty"` // array length
 	Fields []FD   `json:"fields,omitempty"`
+	// Overlap: one field has a dotted name that leads into the namespace of a struct field of the same struct
+	Overlap bool `json:"overlap,omitempty"`
 }
 
 // FD describes one struct field.
@@ -401,7 +403,13 @@ func GenStructTD(t *rapid.T, cfg *TDCfg, depth int) *TD {
 	n := rapid.IntRange(1, cfg.MaxFields).Draw(t, "nf")
 	td := &TD{Kind: "struct"}
 	for i := 0; i < n; i++ {
+		uniName := false
 		f := FD{Name: fmt.Sprintf("F%d", i), Tag: fmt.Sprintf("f%d", cfg.next())}
+		if rapid.IntRange(0, 5).Draw(t, "uniname") == 0 {
+			// Go identifiers are not ASCII only: exported names that start with a non-ASCII upper-case letter
+			f.Name = fmt.Sprintf("%s%d", rapid.SampledFrom([]string{"Ä", "Δ", "Éé", "Ω_", "Ñ"}).Draw(t, "uni"), i)
+			uniName = true
+		}
 		opt := rapid.IntRange(0, 11).Draw(t, "fopt")
 		switch {
 		case opt == 0 && cfg.Inline:
@@ -426,12 +434,59 @@ func GenStructTD(t *rapid.T, cfg *TDCfg, depth int) *TD {
 			f.T = GenTD(t, cfg, depth-1)
 			f.Tag = ""
 			f.Name = fmt.Sprintf("G%dx%d", i, cfg.next()) // config name = lower-cased field name, unique
+			if uniName {
+				f.Name = fmt.Sprintf("Ǆ%dx%d", i, cfg.next())
+			}
 		default:
 			f.T = GenTD(t, cfg, depth-1)
 		}
 		td.Fields = append(td.Fields, f)
 	}
+	if cfg.Dotted && depth > 0 && rapid.IntRange(0, 3).Draw(t, "overlap") == 0 {
+		// a dotted name that leads INTO the namespace of a struct field of this struct (server.tls.port next to
+		// the struct field server, whose field tls is a struct again), declared before or after that field
+		var cands []int
+		for i, f := range td.Fields {
+			if plainStructField(f) {
+				cands = append(cands, i)
+			}
+		}
+		if len(cands) > 0 {
+			i := rapid.SampledFrom(cands).Draw(t, "ovf")
+			path := td.Fields[i].Tag
+			cur := td.Fields[i].T
+			for d := rapid.IntRange(0, 2).Draw(t, "ovdepth"); d > 0; d-- {
+				var sub []FD
+				for _, f := range cur.Fields {
+					if plainStructField(f) {
+						sub = append(sub, f)
+					}
+				}
+				if len(sub) == 0 {
+					break
+				}
+				f := rapid.SampledFrom(sub).Draw(t, "ovsub")
+				path += "." + f.Tag
+				cur = f.T
+			}
+			nf := FD{Name: fmt.Sprintf("O%d", cfg.next()), Tag: fmt.Sprintf("%s.x%d", path, cfg.next()), T: &TD{Kind: GenLeafKind(t, cfg)}}
+			at := rapid.IntRange(0, len(td.Fields)).Draw(t, "ovat")
+			td.Fields = append(td.Fields[:at], append([]FD{nf}, td.Fields[at:]...)...)
+			td.Overlap = true
+		}
+	}
 	return td
+}
+
+// plainStructField: a field of struct kind (no pointer) with a plain, non-numeric name of its own.
+func plainStructField(f FD) bool {
+	if f.Inline || f.Ignore || f.Unexp || f.Tag == "" || f.T == nil || f.T.Kind != "struct" || strings.Contains(f.Tag, ".") {
+		return false
+	}
+	if _, err := strconv.Atoi(f.Tag); err == nil {
+		return false
+	}
+	return true
 }
 
 var (
